@@ -79,7 +79,10 @@ class Ctx:
         self.tier = tier
         self.seed = seed
         self.replay = replay
-        self.work = WORK / pid
+        # VERIF_SCRATCH_TAG: side runs (a patched scratch tree, a seed sweep) get their own scratch directory and do not
+        # overwrite the registered evidence file
+        self.scratch_tag = os.environ.get("VERIF_SCRATCH_TAG", "")
+        self.work = WORK / (pid + ("__" + self.scratch_tag if self.scratch_tag else ""))
         if self.work.exists():
             shutil.rmtree(self.work, ignore_errors=True)
         self.work.mkdir(parents=True, exist_ok=True)
@@ -195,7 +198,7 @@ class Ctx:
             "violations": self.n_violations,
         }
         EVID.mkdir(exist_ok=True)
-        (EVID / f"{self.pid}.json").write_text(json.dumps(_jsonable(ev), indent=1) + "\n")
+        (self.work / "evidence.json" if self.scratch_tag else EVID / f"{self.pid}.json").write_text(json.dumps(_jsonable(ev), indent=1) + "\n")
         self.log(
             f"done: evaluations={cov['evaluations']} distinct={cov['distinct_nontrivial']} "
             f"violations={self.n_violations} known={len(self.known_seen)} wall={ev['wall_s']}s"
